@@ -25,7 +25,22 @@ RULE = ("genuine ID token per client setting (expected alg absent/RS256/ES256/HS
         "exp and iat at each window boundary -1/0/+1; wrong/missing/foreign nonce; wrong/missing/swapped c_hash and "
         "at_hash; forged __verified_id_token), then random fault pairs; each case through the message API and "
         "through the real authorization / token services of a StandAloneClient; a case is non-trivial when the "
-        "token differs from every other case in (setting, path, delivery, fault)")
+        "token differs from every other case in (setting, path, delivery, fault); then HISTORIES on one RP instance "
+        "(the nonce clause depends on what went before: the session record and the key map shared by nonce, sub and sid "
+        "bindings): three sessions A, B, C of one client, A and B each in every stage of {pending, authorization response "
+        "seen, token response seen, refreshed} x what goes by first (nothing; an individually valid ID Token for B whose "
+        "sub is A's nonce / A's state / B's own nonce, by token response, front channel then token response, token then "
+        "refresh response, in a third session, A's token with B's nonce as sub; sid = A's nonce; an ordinary subject that "
+        "is later presented as nonce; a response member called nonce naming A's nonce in the authorization / token / "
+        "refresh / user-info response of B, or in A's own response followed by sub = A's nonce; members sub / state) x "
+        "then an ID Token for B carrying A's nonce through every channel (authorization response alone / with the code, "
+        "token response, refresh response), then the genuine token responses of A and B; plus random histories of 3-6 "
+        "deliveries over 2-3 sessions in random stages with nonce and sub drawn from own / other session's nonce / state "
+        "/ subjects seen, now and then an extra member; oracle: an ID Token accepted for a session carries the nonce "
+        "that session's own request was sent with (generator ground truth) and passes the single-token validator, "
+        "nothing else is ever on record as verified, a refusal stores nothing, and where nothing before concerns the "
+        "token the verdict is the verdict of the token alone; the model replays every history and evaluates "
+        "C08_nonce_history on it")
 ASSUMPTIONS = [
     "JWS signatures and HMACs are ideal (Lib/Crypto.v): a signature verifies only under the key that made it, "
     "for exactly the header and payload it was made for",
@@ -33,6 +48,8 @@ ASSUMPTIONS = [
     "gather_keys / verify_compact (validated on every run by the correspondence)",
     "left_hash (SHA-2) is a function; the theorems are parametric in it",
     "JSON numbers are integers (floats are outside the modelled fragment)",
+    "the states and nonces the relying party draws (rndstr) are fresh: fed to the model as observed; the history "
+    "theorem C08_nonce_history assumes it (fresh_history)",
 ]
 
 
@@ -240,6 +257,343 @@ def malformed_stream(ctx, clock):
                 ctx.violation("rejected-but-stored", "refused (%s, %s) but the client state changed" % (name, out[1]), rec)
 
 
+# ====================================================================================================
+# Histories: the nonce clause of C08 ("carries the nonce that was sent") is the one clause whose verdict
+# depends on what the relying party has done BEFORE: the nonce a session sent lives in the session's record
+# and in the key map the record store shares between nonce -> state, sub -> state and sid -> state bindings.
+# One RP instance, 2-3 sessions in different stages, sequences of 2-4 ID Tokens: earlier, individually valid
+# deliveries whose bound values (sub, sid) or extra members equal another session's nonce / state, then an ID
+# Token for session B that carries session A's nonce, through every channel that takes an ID Token.
+# Ground truth is the generator's: the nonce each session's own authorization request carried.
+# ====================================================================================================
+H_SETTING = dict(sigalg="RS256", reg="dynamic", allow_none=False, skew=0, allow_missing_kid=False)
+STAGES = ("P", "Z", "T", "R")      # pending / authorization response seen / token response seen / refreshed
+
+
+class Sn:
+    """a session of the relying party, as the generator knows it"""
+
+    def __init__(self, n, state, nonce, user):
+        self.n, self.state, self.nonce, self.user = n, state, nonce, user
+        self.code, self.at, self.rtok = "Co-h%d" % n, "At-h%d" % n, "Rt-h%d" % n
+        self.stage = "P"
+        self.sub = None            # subject of the ID Token the RP last accepted for this session
+        self.gen = 0
+
+
+def h_tok(nonce, sub, code=None, extra=None):
+    claims = {"iss": H.ISS, "sub": sub, "aud": [H.CLIENT_ID], "exp": H.T0 + 300, "iat": H.T0 - 5}
+    if nonce is not None:
+        claims["nonce"] = nonce
+    if code is not None:
+        claims["c_hash"] = H.left_hash_ref(code, 256)
+    if extra:
+        claims.update(extra)
+    return {"alg": "RS256", "kid": "r1", "signer": "iss_rsa1", "sigfault": None, "claims": claims}
+
+
+class Hist:
+    """one history on one world: delivers, keeps the generator's ground truth, judges every delivery"""
+
+    def __init__(self, ctx, world, family, setting=H_SETTING):
+        self.ctx, self.w, self.family, self.setting = ctx, H.fresh_world(world), family, setting
+        self.w.clock.now = H.T0
+        self.sessions = []
+        self.events = []           # what was delivered, with the verdicts of the oracle
+        self.verdicts = []         # (signature, text) - reported once the whole trace is on record
+        self.quiet = True          # no earlier delivery carried a value of another session / a foreign member
+
+    def begin(self, user):
+        st, nonce = self.w.begin(H.ISS, "code id_token")
+        s = Sn(len(self.sessions), st, nonce, user)
+        self.sessions.append(s)
+        return s
+
+    # ---- one delivery: the response of `channel` for session s, with an ID Token (nonce, sub) or without one
+    def deliver(self, s, channel, nonce="own", sub=None, members=None, with_code=True, claims=None, role="step"):
+        w = self.w
+        sub = sub if sub is not None else (s.sub or s.user)
+        nonce = s.nonce if nonce == "own" else nonce
+        members = dict(members or {})
+        tok, code = None, None
+        if channel == "authz" and "state" in members:
+            # the state parameter of an authorization response IS its addressing: the response is one for the
+            # session it names
+            s = next((x for x in self.sessions if x.state == members["state"]), s)
+            del members["state"]
+        if channel == "authz":
+            params = {"state": s.state}
+            if with_code:
+                params["code"] = code = s.code
+            if nonce is not False:
+                tok = h_tok(nonce, sub, code, claims)
+            params.update(members)
+            out = w.authz(H.ISS, params, tok)
+        elif channel == "token":
+            params = {"access_token": s.at, "token_type": "Bearer", "expires_in": 600, "refresh_token": s.rtok}
+            if nonce is not False:
+                tok = h_tok(nonce, sub, None, claims)
+            params.update(members)
+            out = w.token(H.ISS, s.state, params, tok)
+        elif channel == "refresh":
+            s.gen += 1
+            params = {"access_token": "%s-r%d" % (s.at, s.gen), "token_type": "Bearer", "expires_in": 600}
+            if nonce is not False:
+                tok = h_tok(nonce, sub, None, claims)
+            params.update(members)
+            out = w.refresh(H.ISS, s.state, params, tok)
+        elif channel == "userinfo":
+            params = {"sub": sub, "name": "N"}
+            params.update(members)
+            out = w.userinfo(H.ISS, s.state, params)
+        else:
+            raise ValueError(channel)
+        self.judge(s, channel, tok, code, members, out, role)
+        return out
+
+    # ---- the oracle (property text + generator ground truth; no look at the library's stores beyond the
+    #      `__verified_id_token` the property itself names)
+    def judge(self, s, channel, tok, code, members, out, role):
+        ctx, last = self.ctx, self.w.log[-1]
+        ok = out[0] == "ok" and not (isinstance(out[1], dict) and "error" in out[1])
+        db_before, db_after = last["before"][0][1], last["after"][0][1]
+        returned = out[1].get("__verified_id_token") if ok else None
+        stored, was = db_after.get(s.state, {}).get("__verified_id_token"), db_before.get(s.state, {}).get("__verified_id_token")
+        accepted = tok is not None and (returned is not None or (stored is not None and stored != was))
+        ev = {"session": s.n, "channel": channel, "role": role, "members": members,
+              "out": "ok" if ok else (out[1] if isinstance(out[1], str) else "error-response"),
+              "claims": None if tok is None else tok["claims"], "accepted": accepted}
+        nonces = {x.nonce: x for x in self.sessions}
+        if tok is not None:
+            case = {"path": "svc_authz" if channel == "authz" else "svc_token", "cfg": self.setting, "now": self.w.clock.now,
+                    "ctx": {"code": code, "access_token": None}, "tok": tok, "fault": role}
+            # an ID Token in a REFRESH response need not repeat the nonce (OpenID Connect Core 12.2: it should not have
+            # one; when it has one it is the nonce of the original authentication request, i.e. the one sent)
+            no_nonce_refresh = channel == "refresh" and "nonce" not in tok["claims"]
+            bad = H.oracle_c08(case, "RS256", None if no_nonce_refresh else s.nonce)
+            ev["violates"] = bad
+            ctx.count("history:%s:%s-%s" % (channel, "valid" if not bad else "invalid", "accepted" if accepted else "rejected"))
+            if accepted and bad:
+                n = tok["claims"].get("nonce")
+                if bad == ["nonce"]:
+                    earlier = [e for e in self.events if e["accepted_response"]]
+                    owner = nonces.get(n)
+                    if any("nonce" in e["members"] and e["session"] in (s.n, None if owner is None else owner.n) for e in earlier):
+                        # an earlier accepted RESPONSE (for this session, or for the one whose nonce it is) had a
+                        # member called nonce
+                        sig = "history-foreign-nonce-accepted:nonce-member-overwrote-record"
+                    elif owner is None and any(e["session"] == s.n and e["claims"] and e["accepted"] and
+                                               n in (e["claims"].get("sub"), e["claims"].get("sid")) for e in earlier):
+                        # not the nonce of any session: the subject / session id of an ID Token this session got before
+                        sig = "history-foreign-nonce-accepted:nonce-is-bound-subject"
+                    elif owner is not None:
+                        sig = "history-foreign-nonce-accepted:nonce-of-other-session"
+                    else:
+                        sig = "history-foreign-nonce-accepted"
+                else:
+                    sig = "history-accepted-invalid:" + bad[0]
+                self.verdicts.append((sig, "ID Token accepted for session %d (%s response) although it violates %s: its nonce is %r, "
+                                      "the nonce sent in that session's request is %r%s; claims %s"
+                                      % (s.n, channel, bad, n, s.nonce,
+                                         "" if n not in nonces else " (it is the nonce of session %d)" % nonces[n].n, tok["claims"])))
+            # where the history is irrelevant the verdict is the verdict of the token alone (the single-fault matrix
+            # above says: a valid token is accepted, an invalid one refused)
+            ready = {"authz": "P", "token": "Z", "refresh": "T"}[channel]
+            if self.quiet and role in ("stage", "control") and not bad and not accepted and STAGES.index(s.stage) >= STAGES.index(ready):
+                self.verdicts.append(("history-irrelevant-verdict-differs", "a valid ID Token for session %d (%s response, own nonce, "
+                                      "ordinary subject) was refused (%s) although nothing before it in this history concerns "
+                                      "its nonce or subject" % (s.n, channel, out[1])))
+            if not bad and not accepted:
+                ctx.count("history:valid-token-refused:" + role)
+        # never stored as verified: whatever the stores hold as the verified ID Token of a session carries the
+        # nonce that session sent
+        for x in self.sessions:
+            vid = db_after.get(x.state, {}).get("__verified_id_token")
+            if isinstance(vid, dict) and vid.get("nonce") != x.nonce and vid != db_before.get(x.state, {}).get("__verified_id_token"):
+                if not (accepted and x is s):      # (already reported above as accepted)
+                    self.verdicts.append(("history-foreign-nonce-stored", "after the %s response for session %d the verified ID "
+                                          "Token on record for session %d has nonce %r (sent: %r)"
+                                          % (channel, s.n, x.n, vid.get("nonce"), x.nonce)))
+        # a refused delivery stores nothing
+        if not ok and (last["before"] != last["after"]):
+            self.verdicts.append(("rejected-but-stored", "the %s response for session %d was refused (%s) but the client state changed"
+                                  % (channel, s.n, out[1])))
+        ev["accepted_response"] = ok
+        self.events.append(ev)
+        if ok and tok is not None and accepted:
+            s.sub = tok["claims"].get("sub")
+        if ok and channel != "userinfo":      # what the session now has on record (a code, tokens, refreshed tokens)
+            reached = {"authz": "Z" if code is not None else "P", "token": "T", "refresh": "R"}[channel]
+            if STAGES.index(reached) > STAGES.index(s.stage):
+                s.stage = reached
+        # from here on the history is no longer irrelevant: a value of another session / an extra member went by
+        vals = set(members.values()) | ({tok["claims"].get("sub"), tok["claims"].get("sid")} if tok is not None else set())
+        known = {x.nonce for x in self.sessions} | {x.state for x in self.sessions}
+        if members or (vals & known) or (tok is not None and tok["claims"].get("nonce") != s.nonce) or role == "prime":
+            self.quiet = False
+
+    # ---- bring a session to a stage with its own genuine responses
+    def advance(self, s, stage):
+        order = STAGES.index
+        if order(stage) >= 1 and order(s.stage) < 1:
+            self.deliver(s, "authz", role="stage")
+        if order(stage) >= 2 and order(s.stage) < 2:
+            self.deliver(s, "token", role="stage")
+        if order(stage) >= 3 and order(s.stage) < 3:
+            self.deliver(s, "refresh", role="stage")
+
+    def finish(self, traces):
+        rec = {"family": self.family, "sessions": [(s.n, s.state, s.nonce, s.user, s.stage) for s in self.sessions],
+               "events": self.events}
+        outs = [e["out"] for e in self.events]
+        self.ctx.case_seen(rec, nontrivial=len(self.sessions) >= 2 and "ok" in outs and any(o != "ok" for o in outs))
+        self.ctx.count("path:history")
+        for sig, text in self.verdicts:
+            self.ctx.violation(sig, "%s [history %s]" % (text, self.family), rec)
+        if self.w.modellable():
+            traces.append((self.w.coq_trace(), rec))
+        else:
+            self.ctx.unmodelled += 1
+
+
+def h_probes(h, target, foreign, tag):
+    """ID Tokens for `target` that carry the nonce `foreign` (never sent in target's request), through every channel
+    that takes an ID Token: authorization response (ID Token alone / with the session's code), token response,
+    refresh response.  The subject is the one the session has on record (so that nothing but the nonce is wrong)."""
+    h.deliver(target, "authz", nonce=foreign, with_code=False, role="probe:" + tag)
+    h.deliver(target, "authz", nonce=foreign, with_code=True, role="probe:" + tag)
+    h.deliver(target, "token", nonce=foreign, role="probe:" + tag)
+    h.deliver(target, "refresh", nonce=foreign, role="probe:" + tag)
+
+
+# what goes by before the probes; A = sessions[0] (whose nonce is carried over), B = sessions[1], C = sessions[2]
+def _prime_none(h, A, B, C):
+    return [(B, A.nonce)]
+
+
+def _prime_sub_token(value):
+    def f(h, A, B, C):
+        h.deliver(B, "token", sub=value(A, B), role="prime")
+        return [(B, A.nonce)]
+    return f
+
+
+def _prime_sub_front_then_token(h, A, B, C):
+    h.deliver(B, "authz", sub=A.nonce, role="prime")
+    h.deliver(B, "token", sub=A.nonce, role="prime")
+    return [(B, A.nonce)]
+
+
+def _prime_sub_token_then_refresh(h, A, B, C):
+    h.deliver(B, "token", sub=A.nonce, role="prime")
+    h.deliver(B, "refresh", sub=A.nonce, role="prime")
+    return [(B, A.nonce)]
+
+
+def _prime_sub_in_third(h, A, B, C):
+    h.advance(C, "Z")
+    h.deliver(C, "token", sub=A.nonce, role="prime")
+    return [(C, A.nonce), (B, A.nonce)]
+
+
+def _prime_reverse(h, A, B, C):
+    h.deliver(A, "token", sub=B.nonce, role="prime")
+    return [(A, B.nonce), (B, A.nonce)]
+
+
+def _prime_member(channel, name, value, then_sub=False, carrier="B"):
+    def f(h, A, B, C):
+        s = {"A": A, "B": B}[carrier]
+        kw = {"nonce": False} if channel == "authz" else {}
+        h.deliver(s, channel, members={name: value(A, B)}, role="prime", **kw)
+        if then_sub:
+            h.deliver(B, "token", sub=A.nonce, role="prime")
+        return [(B, A.nonce)]
+    return f
+
+
+def _prime_bound_subject(h, A, B, C):
+    h.deliver(B, "token", sub="erin", role="prime")
+    return [(B, "erin"), (B, A.nonce)]
+
+
+def _prime_sid_claim(h, A, B, C):
+    h.deliver(B, "token", claims={"sid": A.nonce}, role="prime")
+    return [(B, A.nonce)]
+
+
+H_PRIMES = [
+    ("none", _prime_none),
+    ("sub=nonce-of-A:token", _prime_sub_token(lambda A, B: A.nonce)),
+    ("sub=state-of-A:token", _prime_sub_token(lambda A, B: A.state)),
+    ("sub=own-nonce:token", _prime_sub_token(lambda A, B: B.nonce)),
+    ("sub=nonce-of-A:front-then-token", _prime_sub_front_then_token),
+    ("sub=nonce-of-A:token-then-refresh", _prime_sub_token_then_refresh),
+    ("sub=nonce-of-A:third-session", _prime_sub_in_third),
+    ("sub=nonce-of-B:in-A", _prime_reverse),
+    ("sid=nonce-of-A:token", _prime_sid_claim),
+    ("nonce-is-earlier-subject", _prime_bound_subject),
+    ("member-nonce=nonce-of-A:authz", _prime_member("authz", "nonce", lambda A, B: A.nonce)),
+    ("member-nonce=nonce-of-A:token", _prime_member("token", "nonce", lambda A, B: A.nonce)),
+    ("member-nonce=nonce-of-A:refresh", _prime_member("refresh", "nonce", lambda A, B: A.nonce)),
+    ("member-nonce=nonce-of-A:userinfo", _prime_member("userinfo", "nonce", lambda A, B: A.nonce)),
+    ("member-nonce-in-A-then-sub=nonce-of-A", _prime_member("authz", "nonce", lambda A, B: "zzz", then_sub=True, carrier="A")),
+    ("member-sub=nonce-of-A:token", _prime_member("token", "sub", lambda A, B: A.nonce)),
+    ("member-state=state-of-A:token", _prime_member("token", "state", lambda A, B: A.state)),
+]
+
+
+def history_matrix(ctx, world, traces, quick):
+    """stage of A x stage of B x what went by before x the foreign-nonce ID Token through every channel, then the
+    genuine responses of both sessions (each is still its own)."""
+    for sa in STAGES:
+        for sb in STAGES:
+            for pname, prime in H_PRIMES:
+                if quick and pname.startswith("member-") and "nonce" not in pname and (sa, sb) not in (("T", "Z"), ("Z", "T")):
+                    continue
+                h = Hist(ctx, world, "matrix:A=%s,B=%s:%s" % (sa, sb, pname))
+                A, B, C = h.begin("diana"), h.begin("bob"), h.begin("carol")
+                h.advance(A, sa)
+                h.advance(B, sb)
+                for target, foreign in prime(h, A, B, C):
+                    h_probes(h, target, foreign, pname)
+                # afterwards every session is served its own genuine token response (subject as on record)
+                for s in (A, B):
+                    h.deliver(s, "token", role="control")
+                h.finish(traces)
+
+
+def random_token_history(ctx, world, rng, traces):
+    """2-3 sessions brought to random stages, then 3-6 deliveries of random channel for random sessions whose ID
+    Token takes its nonce and its subject from {own, another session's nonce, another session's state, a subject seen
+    before, an ordinary name}, now and then with an extra member called nonce / sub / sid / state."""
+    h = Hist(ctx, world, "random")
+    k = rng.randint(2, 3)
+    ss = [h.begin(u) for u in ("diana", "bob", "carol")[:k]]
+    for s in ss:
+        h.advance(s, rng.choice(STAGES))
+    for _ in range(rng.randint(3, 6)):
+        s = rng.choice(ss)
+        o = rng.choice([x for x in ss if x is not s])
+        channel = rng.choice(["authz", "authz", "token", "token", "token", "refresh", "refresh", "userinfo"])
+        r = rng.random()
+        nonce = "own" if r < 0.5 else o.nonce if r < 0.8 else rng.choice([o.state, s.sub or "erin", o.sub or o.user, None])
+        r = rng.random()
+        sub = None if r < 0.45 else o.nonce if r < 0.7 else rng.choice([s.nonce, o.state, s.state, o.user, "erin"])
+        members = {}
+        if rng.random() < 0.25:
+            m = rng.choice(["nonce", "nonce", "sub", "sid", "state"])
+            members[m] = rng.choice([o.nonce, s.nonce, o.state, "zzz"])
+        kw = {}
+        if channel == "authz":
+            kw["with_code"] = rng.random() < 0.6
+            if rng.random() < 0.25:
+                nonce = False
+        role = "control" if (nonce == "own" and sub is None and not members) else "random"
+        h.deliver(s, channel, nonce=nonce, sub=sub, members=members, role=role, **kw)
+    h.finish(traces)
+
+
 def encrypted_matrix(rng, faults, quick):
     """The JWE dimension crossed with the fault matrix: a well-formed JWE for the RP's key around every
     signature / algorithm / key / kid fault and a sample of the claim faults; every other JWE variant (foreign
@@ -371,10 +725,21 @@ def run(ctx):
     msg_cases += run_msg(ctx, clock, [dict(s, reg="dynamic") for s in some], pair_faults, full, main_delivery)
     traces += run_svc(ctx, clock, some[:1] if ctx.quick else some, pair_faults, main_delivery)
     malformed_stream(ctx, clock)
+    # ---- histories: sequences of ID Tokens over several sessions of one RP (after every older family, so that
+    #      those draw the same cases for a seed as before)
+    hist = []
+    hworld = H.enable_token_endpoint_auth(H.make_world(clock, issuers=(H.ISS,), **H_SETTING))
+    history_matrix(ctx, hworld, hist, ctx.quick)
+    for _ in range(150 if ctx.quick else 3000):
+        random_token_history(ctx, hworld, rng, hist)
     clock.uninstall()
     H.check_cases(ctx, H.RESP_IMPORTS, H.RESP_TYPE, "chk_resp_case", msg_cases, shard=400, label="msg",
                   diag="run_resp_case")
     H.check_cases(ctx, H.TRACE_IMPORTS, H.TRACE_TYPE, "chk_trace", traces, shard=150, label="svc",
+                  diag="first_bad_step")
+    # chk_history = the model replays the trace (chk_trace) AND, in the model, every accepted ID Token carries the
+    # nonce sent for its session (the statement of C08_nonce_history evaluated on the sequence)
+    H.check_cases(ctx, H.TRACE_IMPORTS, H.TRACE_TYPE, "chk_history", hist, shard=40, label="hist",
                   diag="first_bad_step")
     if not ctx.quick:   # evidence only: how much of a sample the model itself places outside its fragment
         count_unmodelled(ctx, H.RESP_IMPORTS, H.RESP_TYPE, "unmodelled_resp_case", msg_cases[:1600], "msg")
